@@ -70,6 +70,48 @@ def h01_redis_finish(S):
 _B = {"operations": "enqueue (immediate / due in 2 s), consume through each category, ack, nack, reject, requeue (immediate / delayed), clock advance 3 s, consumer finish",
       "clients": "well-behaved: terminal actions only on held messages, fresh ids", "queues/topics": "one queue, one topic, equal priority"}
 
+
+def h01_mem_requeue_error(S):
+    """requeue() with parameters whose next execution time cannot be worked out raises - and replaces nothing: the held message is
+    still held (atomic replacement, also on the error path)."""
+    import datetime as dt
+    import repid.data._parameters as P
+    from repid.data._key import RoutingKey
+    from harness.common import World, mem_places, place_names, run_async, try_consume
+
+    kind = ["aware-delay_until", "zero-period", "cron-without-croniter"][S.pick("parameters", 3)]
+    S.tag("parameters", kind)
+    out = {}
+
+    async def main(loop):
+        w = World()
+        await w.open(record=False)
+        key = RoutingKey(topic="job", queue="default", id_="m1")
+        await w.broker.enqueue(key, "old", P.Parameters(timestamp=P.datetime.now()))
+        cons = w.broker.get_consumer("default", ["job"])
+        await cons.start()
+        got = await try_consume(cons)
+        assert got is not None
+        bad = {"aware-delay_until": P.DelayProperties(delay_until=dt.datetime(2030, 1, 1, tzinfo=dt.timezone.utc)),
+               "zero-period": P.DelayProperties(defer_by=dt.timedelta(0)),
+               "cron-without-croniter": P.DelayProperties(cron="* * * * *")}[kind]
+        try:
+            await w.broker.requeue(key, "new", P.Parameters(timestamp=P.datetime.now(), delay=bad))
+            out["raised"] = None
+        except Exception as e:  # noqa: BLE001
+            out["raised"] = type(e).__name__
+        out["places"] = place_names(mem_places(w.broker), "m1")
+        out["payloads"] = [p[1].payload for p in mem_places(w.broker).get("m1", [])]
+
+    run_async(main)
+    S.cover("requeue-error-path")
+    if out["raised"] is None:
+        S.check("requeued-once", len(out["places"]) == 1 and out["payloads"] == ["new"], info=str(out))
+    else:
+        S.check("failed-requeue-replaces-nothing", out["places"] == ["processing"] and out["payloads"] == ["old"],
+                info=f"requeue raised {out['raised']}; the message is now in {out['places']} with payloads {out['payloads']}")
+
+
 HARNESSES = [
     Harness(name="H01-mem-hist", scenario=h01_mem, workers=16, budget_s=900,
             params={"quick": {"steps": 4, "pre": 1}, "thorough": {"steps": 5, "pre": 1}},
@@ -115,6 +157,10 @@ for _be in ("mem", "redis", "rabbit"):
 
 ASSUMPTIONS = ["operation selectors are discrete: the solver enumerates the well-behaved histories inside the bound"]
 
+HARNESSES.append(Harness(
+    name="H01-mem-requeue-error", scenario=h01_mem_requeue_error,
+    bounds={"requeue parameters": "a time-zone-aware delay_until, a zero period, a cron expression without croniter installed"},
+    functions=["connections/in_memory/message_broker.py:InMemoryMessageBroker.requeue"], covers=["requeue-error-path"]))
 # scenarios of other properties that also decide a clause of this one ("dead-lettered ... in exactly one place"; a message the
 # runner took is handed back or settled, never left with a consumer that is gone)
 from engine.harness import borrowed  # noqa: E402
